@@ -29,6 +29,13 @@ class _T(ast.NodeTransformer):
                 return ast.copy_location(ast.Call(func=ast.Name(id='__sx_sjoin', ctx=ast.Load()), args=[f.value, node.args[0]], keywords=[]), node)
         return node
 
+    def visit_Import(self, node):
+        # function-local `import re` -> the regular-expression shim (opt-in)
+        if self.opts.get('re') and len(node.names) == 1 and node.names[0].name == 're' and node.names[0].asname is None:
+            self.count += 1
+            return ast.copy_location(ast.Assign(targets=[ast.Name(id='re', ctx=ast.Store())], value=ast.Name(id='__sx_re', ctx=ast.Load())), node)
+        return node
+
     def visit_BinOp(self, node):
         self.generic_visit(node)
         if self.opts.get('strings') and isinstance(node.op, ast.Mod) and isinstance(node.left, ast.Constant) and isinstance(node.left.value, str):
@@ -70,7 +77,8 @@ def _helpers():
         if isinstance(b, SBool):
             return ~b
         return not b
-    return {'__sx_bjoin': bjoin, '__sx_sjoin': sjoin, '__sx_fmt': fmt, '__sx_in': s_in, '__sx_not': s_not}
+    from . import strings as _st
+    return {'__sx_bjoin': bjoin, '__sx_sjoin': sjoin, '__sx_fmt': fmt, '__sx_in': s_in, '__sx_not': s_not, '__sx_re': _st.re_shim}
 
 
 def instrument_function(fn, **opts):
@@ -88,6 +96,12 @@ def instrument_function(fn, **opts):
     tree = ast.parse(src)
     fdef = tree.body[0]
     fdef.decorator_list = []
+    # annotations are evaluated when the def is re-executed in the (shimmed) module namespace: drop them
+    for n in ast.walk(tree):
+        if isinstance(n, (ast.FunctionDef, ast.AsyncFunctionDef)):
+            n.returns = None
+            for a in n.args.posonlyargs + n.args.args + n.args.kwonlyargs + ([n.args.vararg] if n.args.vararg else []) + ([n.args.kwarg] if n.args.kwarg else []):
+                a.annotation = None
     tr = _T(opts)
     tree = tr.visit(tree)
     if not tr.count:
